@@ -67,6 +67,10 @@ func (f *frame) callContract(st *State, ins *ssa.Call, callee *ssa.Function, con
 	for _, c := range con.Ensures {
 		st.assume(env2.evalBool(c.E))
 	}
+	for _, c := range con.Defines {
+		st.assume(env2.evalBool(c.E))
+		ex.assumed["ghost predicate defined as the observable behaviour of "+con.Key+" (relies on its determinism): "+c.Src] = true
+	}
 	ex.usedContracts[con.Key] = true
 	return tupleOf(results)
 }
